@@ -354,13 +354,8 @@ func memRunCmd(args []string) error {
 			ms, _ := strconv.Atoi(fs[2])
 			pendingBG = append(pendingBG, bgCmd{conn: fs[1], delay: ms, args: fs[3:]})
 		case "DUMP":
-			now := time.Now().Unix()
-			for i, d := range mgr.DBs {
-				for _, l := range memdb.VerifDump(d, now) {
-					fmt.Fprintf(w, "D %d %s\n", i, l)
-				}
-			}
-			fmt.Fprintf(w, "DEND %d\n", now)
+			// defensive walk: a nil entry of mgr.DBs is reported as a NOTE line, never a crash
+			dumpDBs(w, mgr)
 		case "END":
 			fmt.Fprintf(w, "END\n")
 		}
